@@ -746,7 +746,9 @@ class Association(threading.Thread):
                 self._serve_request(msg, cast(int, context_id))
 
             # Check for release request from the peer
-            if self.is_established and self.acse.is_release_requested():
+            # (taking the indication triggers EVT_ACSE_RECV, whose handlers may
+            #   abort the association: test is_established afterwards)
+            if self.acse.is_release_requested() and self.is_established:
                 # Send A-RELEASE response
                 self.acse.send_release(is_response=True)
                 LOGGER.info("Association Released")
